@@ -116,7 +116,7 @@ class ParallelStep(GeneticStep):
                     evaluator,
                     representation,
                     random,
-                    population,
+                    npopulation,
                     end - start,
                     generation,
                 )
